@@ -89,6 +89,10 @@ def parse_template(path):
         elif s.startswith("//@source"):
             a = _directive_args(s[9:])
             sources[a["name"]] = a
+        elif s.startswith("//@require"):
+            parts.append(("text", "\n".join(buf) + "\n"))
+            buf = []
+            parts.append(("require", _directive_args(s[10:])))
         elif s.startswith("//@extract"):
             parts.append(("text", "\n".join(buf) + "\n"))
             buf = []
@@ -318,6 +322,14 @@ def generate(tpl_path, scratch, canary=False):
     for kind, p in parts:
         if kind == "text":
             out.append(p)
+        elif kind == "require":
+            sd = sources[p["source"]]
+            if sd.get("kind", "file") == "expanded":
+                src = expand_crate(sd["crate"], scratch, sd.get("features"))
+            else:
+                src = open(os.path.join(REPO, sd["path"])).read()
+            if rsrc.find_seq(rsrc.lex(src), rsrc.tok_texts(p["seq"])) < 0:
+                raise Undecided("lost-anchor: required declaration %r not found in %s" % (p["seq"], p["source"]))
         else:
             gen, original, info = extract_block(p, sources, scratch, canary=canary)
             erasure_check(gen, original, info["fn"])
